@@ -89,11 +89,13 @@ def rasterise(notes, time_div, onset_only=False, note_separation=False, pitch_ma
         lo, hi = min(pitches), max(pitches)
         rows = (hi - lo + 1) + 2 * int(pitch_margin)
         shift = int(pitch_margin) - lo
-        if piano_range:
+        if piano_range and not (lo - int(pitch_margin) >= 21 and hi + int(pitch_margin) <= 108):
+            # the band of the margin reaches beyond the keys of a piano: how the two options combine there is left open
             R.rows_open = True
+        # (inside the piano range the request for the piano range changes nothing: the notes and their margin are shown)
     else:
         rows, shift = 128, 0
-    if piano_range and not R.rows_open:
+    if piano_range and not (pitch_margin is not None and pitch_margin > -1):
         rows, shift = 88, -21
 
     # ---------------------------------------------------------------- frames
